@@ -153,7 +153,7 @@ theorem akimaSlopes_linear (chain : Bool) {n : Nat} {g v : Nat → K} {a b : K} 
             simp only [if_neg c0, if_neg c1, if_neg c3, if_neg c2, ↓reduceIte, Bool.false_eq_true] <;>
             exact f
 
-theorem akima_node (eps : K) : KNode 4 (akimaK eps) := by
+theorem akima_node (fix : Bool) (eps : K) : KNode 4 (akimaK fix eps) := by
   intro n g v idx i hn hg hi hcase
   have h1 : ¬ idx = n - 1 := by omega
   have hge : ¬ g i < g 0 := not_lt.mpr (hg.le (Nat.zero_le i) (by omega))
@@ -168,7 +168,7 @@ theorem akima_node (eps : K) : KNode 4 (akimaK eps) := by
     exact akimaPoly_at_right _ _ _ _ _ _ _ (hg.sub_ne' (Nat.lt_succ_self idx) hi)
       (akimaSlopes_m3 _ _ _ _ _)
 
-theorem akima_rep (eps : K) (h0 : 0 ≤ eps) : KRep 4 1 (akimaK eps) := by
+theorem akima_rep (fix : Bool) (eps : K) (h0 : 0 ≤ eps) : KRep 4 1 (akimaK fix eps) := by
   intro n g idx x C hn hg hi
   have hv : ∀ i, (fun i => psum C (g i) (1 + 1)) i = C 1 * g i + C 0 := fun i => psum_two C (g i)
   rw [psum_two]
@@ -177,7 +177,7 @@ theorem akima_rep (eps : K) (h0 : 0 ≤ eps) : KRep 4 1 (akimaK eps) := by
   by_cases hl : idx = n - 1
   · -- above the table: linear continuation from the last node
     simp only [hl, if_true]
-    obtain ⟨m1, m2, m3, m4⟩ := akimaSlopes_linear true hn hg hv (n - 2) (by omega)
+    obtain ⟨m1, m2, m3, m4⟩ := akimaSlopes_linear (!fix) hn hg hv (n - 2) (by omega)
     rw [akimaPoly_const_slope false false eps (C 1) _ 1 _ _ _ _ h0 (by simp) m1 m2 m3 m4]
     have e : n - 2 + 1 = n - 1 := by omega
     have c1 : ¬ ((1 : Int) = 0) := by decide
@@ -187,14 +187,14 @@ theorem akima_rep (eps : K) (h0 : 0 ≤ eps) : KRep 4 1 (akimaK eps) := by
     by_cases hb : idx = 0 ∧ x < g 0
     · obtain ⟨hb0, hb1⟩ := hb
       subst hb0
-      obtain ⟨m1, m2, m3, m4⟩ := akimaSlopes_linear true hn hg hv 0 (by omega)
+      obtain ⟨m1, m2, m3, m4⟩ := akimaSlopes_linear (!fix) hn hg hv 0 (by omega)
       simp only [hb1, and_self, if_true]
       rw [akimaPoly_const_slope false false eps (C 1) _ (-1) _ _ _ _ h0 (by simp) m1 m2 m3 m4]
       have c1 : ¬ ((-1 : Int) = 0) := by decide
       have c2 : ¬ ((-1 : Int) = 1) := by decide
       simp only [hv, c1, c2, if_false]
       ring
-    · obtain ⟨m1, m2, m3, m4⟩ := akimaSlopes_linear true hn hg hv idx (by omega)
+    · obtain ⟨m1, m2, m3, m4⟩ := akimaSlopes_linear (!fix) hn hg hv idx (by omega)
       simp only [hb, if_false]
       rw [akimaPoly_const_slope false false eps (C 1) _ 0 _ _ _ _ h0 (by simp) m1 m2 m3 m4]
       have c1 : ¬ ((0 : Int) = 1) := by decide
